@@ -8,7 +8,7 @@ Ltac unfold_model :=
   unfold dispatch_g, on_connmsg_g, on_kexmsg, on_authmsg, on_service_request, on_service_accept, on_ext_info,
          on_kexinit_g, on_newkeys, on_userauth_request, on_userauth_failure, on_userauth_success_g, on_banner,
          try_next_auth, send_userauth_failure, send_userauth_success, send_newkeys, send_kexinit, unimpl,
-         fatal, abort, send_deferred, send_packet, emit.
+         fatal, abort, send_deferred, issue_request, send_packet, emit.
 
 Ltac crush_ifs :=
   repeat match goal with
@@ -43,13 +43,11 @@ Section Frames.
   Proof. induction l as [|t r IH]; intros c; simpl; [reflexivity|]. rewrite IH. unfold send_packet, emit. crush_ifs; reflexivity. Qed.
   Lemma send_list_auth_final : forall l c, auth_final (send_list c l) = auth_final c.
   Proof. induction l as [|t r IH]; intros c; simpl; [reflexivity|]. rewrite IH. unfold send_packet, emit. crush_ifs; reflexivity. Qed.
-  Lemma send_list_req_issued : forall l c, req_issued (send_list c l) = req_issued c.
-  Proof. induction l as [|t r IH]; intros c; simpl; [reflexivity|]. rewrite IH. unfold send_packet, emit. crush_ifs; reflexivity. Qed.
 End Frames.
 
 #[export] Hint Rewrite send_list_strict send_list_recv_enc send_list_unsolicited send_list_srv send_list_closed
   send_list_auth send_list_pending send_list_can_recv_ext send_list_auth_complete send_list_authed send_list_user
-  send_list_auth_final send_list_req_issued : frame.
+  send_list_auth_final : frame.
 
 Ltac frame := intros; unfold_model; cbv zeta; crush_ifs; autorewrite with frame; cbn; autorewrite with frame; try reflexivity.
 
@@ -72,7 +70,7 @@ Proof. induction l as [|t r IH]; intros s; simpl; [auto|]. destruct (IH (mkst (c
 (* what answering a suspended credential callback can do to the connection *)
 Definition release_conn (c : conn) (v : Z) : conn :=
   if v =? 0 then try_next_auth (set_waiting false c) true
-  else set_req_issued true (send_packet (set_waiting false c) 50 0).
+  else issue_request (set_waiting false c).
 
 Lemma step_release fixed fixk s v :
   step_g fixed fixk s (EvRelease v) =
